@@ -1001,10 +1001,12 @@ pub fn c12(ctx: &mut Ctx) -> (u64, String) {
     let mut sample_done = false;
     for l in 0..N_LAYOUTS {
         for form in 0..3 {
+          // both Ctrl modes: no Ctrl key is held at the three plain levels, so the mode must not take a character away
+          for mode in MODES {
             let mut have: BTreeMap<char, (KeyCode, usize)> = BTreeMap::new();
             for k in ALL_KEYS {
                 for (li, (_, m)) in levels.iter().enumerate() {
-                    let out = call(form, l, k, &mods_from_bits(*m), HandleControl::Ignore);
+                    let out = call(form, l, k, &mods_from_bits(*m), mode);
                     ctx.evaluations += 1;
                     if let Ok(DecodedKey::Unicode(c)) = out {
                         have.entry(c).or_insert((k, li));
@@ -1018,23 +1020,24 @@ pub fn c12(ctx: &mut Ctx) -> (u64, String) {
                     None => missing.push(c as char),
                 }
             }
-            if form == 0 && !sample_done && l == L_FI {
+            if form == 0 && !sample_done && l == L_FI && mode == HandleControl::Ignore {
                 sample_done = true;
                 let w: Vec<String> = ['\\', '|', '@', '{', '~'].iter().filter_map(|c| have.get(c).map(|(k, li)| format!("{:?} <- {:?} at level {}", c, k, levels[*li].0))).collect();
                 ctx.sample(json!({"layout": "fi_se105", "witnesses": w}));
             }
             for c in missing {
                 // replay: show the three levels of a few likely keys is not meaningful; list every key once at AltGr level
-                let ops: Vec<Op> = ALL_KEYS.iter().flat_map(|k| levels.iter().map(move |(_, m)| Op::Map(*k, *m, HandleControl::Ignore))).collect();
+                let ops: Vec<Op> = ALL_KEYS.iter().flat_map(|k| levels.iter().map(move |(_, m)| Op::Map(*k, *m, mode))).collect();
                 ctx.violation(
-                    &format!("{}/untypeable/U+{:04X}", LAYOUT_NAMES[l], c as u32),
-                    &format!("[{}] layout {}: no key types {:?} at its unmodified, Shift or AltGr level", FORM_NAMES[form], LAYOUT_NAMES[l], c),
+                    &format!("{}/untypeable/U+{:04X}{}", LAYOUT_NAMES[l], c as u32, if mode == HandleControl::Ignore { "" } else { "/map-letters" }),
+                    &format!("[{}, mode {}] layout {}: no key types {:?} at its unmodified, Shift or AltGr level", FORM_NAMES[form], mode_name(mode), LAYOUT_NAMES[l], c),
                     Replay::one(&format!("layout:{}:{}", FORM_NAMES[form], LAYOUT_NAMES[l]), ops, &format!("some key yields Unicode({:?})", c), None),
                 );
             }
+          }
         }
     }
-    ctx.part("search:95 printable ASCII characters x 30 layout objects", json!({"witnesses_found": witnesses, "required": 95 * 30}));
+    ctx.part("search:95 printable ASCII characters x 30 layout objects x 2 Ctrl modes", json!({"witnesses_found": witnesses, "required": 95 * 30 * 2}));
 
     // Informational only (C12's quantifier names the three plain levels with no lock engaged): the same search with
     // CapsLock on. Reported in the evidence; never a violation, because Shift/Caps + AltGr on a letter key is
@@ -1154,7 +1157,7 @@ pub fn c12(ctx: &mut Ctx) -> (u64, String) {
         ctx.evaluations += n;
         ctx.part("search:via EventDecoder key events", json!({"presses_tried": n}));
     }
-    (witnesses, "for each of the 30 layout objects the set of Unicode outputs over all 124 keys x {unmodified, left Shift, AltGr} is computed and must contain U+0020..U+007E; non-trivial = (layout object, character) pairs with a witness key".into())
+    (witnesses, "for each of the 30 layout objects and both Ctrl modes the set of Unicode outputs over all 124 keys x {unmodified, left Shift, AltGr} is computed and must contain U+0020..U+007E; non-trivial = (layout object, character) pairs with a witness key".into())
 }
 
 // ---- C15 ---------------------------------------------------------------------------------------
